@@ -47,3 +47,17 @@ Theorem C04_encoder_output_accepted : forall c f r, encode_fit c f = Ok r -> (ef
   bytes_ok (er_bytes r) -> 16 < len (er_bytes r) < 2 ^ 32 -> integrity_sequence (er_bytes r) = Some [].
 Proof. exact encode_fit_accepted. Qed.
 Print Assumptions C04_encoder_output_accepted.
+
+(* the MODEL of Decoder.CheckIntegrity (Model/Api.v over Model/Decoder.v: header, discardMessages in 765-byte reads with the
+   running CRC, trailing CRC, loop over chained sequences; tied to the code by differential execution of API histories) gives,
+   for every byte string and every read-buffer size, exactly the count and verdict of the rules with the two known deviations *)
+From Fit Require Import Model.Api Proofs.IntegrityModel.
+Theorem C04_model_is_rules : forall c bs, 765 <= c_bufsize c -> bytes_ok bs ->
+  exists n e, snd (api_step (api_new c bs) ACheckIntegrity) = RIntegrity n e /\ integrity_impl_b bs = (n, verdict e).
+Proof. exact check_integrity_is_rules. Qed.
+Print Assumptions C04_model_is_rules.
+
+Theorem C04_deviations_only_in_known_classes : forall bs d q, hdr_ok bs = Some (14, d, q) -> q <> 0 ->
+  integrity_sequence_gen true true bs = integrity_sequence bs.
+Proof. exact deviations_only_in_known_classes. Qed.
+Print Assumptions C04_deviations_only_in_known_classes.
